@@ -93,6 +93,24 @@ def injections(t):
     return out
 
 
+def expect_type_error_api(tree, what, r, problems):
+    """The same term built bottom-up with the constructors (no parser, which pre-casts operands itself) and
+    wrapped into a predicate: some constructor on the way must raise TypeError."""
+    r.count('transitions')
+    try:
+        absyn.build(('pred', tree))
+        st = 'ok'
+    except Exception as e:  # noqa: BLE001
+        st = impl.outcome_class(e)
+        res = e
+    r.outcomes[f'api:{st}'] += 1
+    text = absyn.expr_text(tree, 'full')
+    if st == 'ok':
+        problems.append((f'definite type error accepted by the constructors ({what})', f'«{text}» built through the API gives a predicate'))
+    elif st != 'type':
+        problems.append((f'definite type error raises {st} instead of TypeError in the constructors ({what})', f'«{text}» [API]: {str(res)[:160]}'))
+
+
 def reuse_variants(t):
     """Conjoin an atom that requires one of t's references at a type disjoint from
     the type its position in t requires (both requirements are definite: they
@@ -164,6 +182,7 @@ def check_term(t, r):
         expect_type_error('expr', text, desc, r, problems)
         expect_type_error('pred', '{ ' + text + ' }', desc, r, problems)
         expect_type_error('prop', 'after s as A: no t { ' + text + ' }', desc, r, problems)
+        expect_type_error_api(t2, desc, r, problems)
     for t2, desc in reuse_variants(t):
         text = texts_for(t2)
         if text is None:
@@ -173,6 +192,7 @@ def check_term(t, r):
         expect_type_error('pred', '{ ' + text + ' }', desc, r, problems)
         expect_type_error('cond', text, desc, r, problems)
         expect_type_error('prop', 'after s as A: no t { ' + text + ' }', desc, r, problems)
+        expect_type_error_api(t2, desc, r, problems)
     return problems
 
 
